@@ -525,6 +525,11 @@ struct Guard<'a> {
     panics: &'a mut Vec<PanicInfo>,
 }
 
+thread_local! {
+    /// number of entry points executed for the current case (coverage: how deep the pipeline went)
+    static ENTRIES: RefCell<u32> = const { RefCell::new(0) };
+}
+
 impl<'a> Guard<'a> {
     fn run<T>(&mut self, entry: &str, f: impl FnOnce() -> T) -> Option<T> {
         if TRACE.with(|t| *t.borrow()) {
@@ -532,6 +537,7 @@ impl<'a> Guard<'a> {
             let _ = std::io::stdout().flush();
         }
         LAST_PANIC_LOCATION.with(|l| *l.borrow_mut() = None);
+        ENTRIES.with(|e| *e.borrow_mut() += 1);
         match catch_unwind(AssertUnwindSafe(f)) {
             Ok(v) => Some(v),
             Err(e) => {
@@ -1011,14 +1017,16 @@ pub fn worker(tier: Tier) -> i32 {
         // a proxy worker thread has a small stack: 2 MiB
         let handle = std::thread::Builder::new().stack_size(2 * 1024 * 1024).spawn(move || {
             install_thread_state(trace);
-            run_case(&case)
+            ENTRIES.with(|e| *e.borrow_mut() = 0);
+            let p = run_case(&case);
+            (p, ENTRIES.with(|e| *e.borrow()))
         });
-        let panics = match handle {
+        let (panics, entries) = match handle {
             Ok(h) => h.join().unwrap_or_default(),
-            Err(_) => Vec::new(),
+            Err(_) => (Vec::new(), 0),
         };
         let enc: Vec<String> = panics.iter().map(|p| format!("{}\u{1}{}\u{1}{}", p.entry, p.location, p.message.replace('\n', " "))).collect();
-        println!("DONE {idx} {}", enc.join("\u{2}"));
+        println!("DONE {idx} {entries} {}", enc.join("\u{2}"));
         let _ = std::io::stdout().flush();
     }
     0
@@ -1063,7 +1071,8 @@ fn field_class(case: &Case) -> String {
 }
 
 enum Outcome {
-    Done(Vec<PanicInfo>),
+    /// panics, number of entry points executed
+    Done(Vec<PanicInfo>, u32),
     Died(String),
     Timeout,
 }
@@ -1104,8 +1113,9 @@ fn run_batch(tier: Tier, indices: &[usize], trace: bool, timeout: Duration) -> V
                 } else if let Some(rest) = line.strip_prefix("ENTER ") {
                     last_enter = Some(rest.to_string());
                 } else if let Some(rest) = line.strip_prefix("DONE ") {
-                    let mut it = rest.splitn(2, ' ');
+                    let mut it = rest.splitn(3, ' ');
                     let idx: usize = it.next().and_then(|s| s.parse().ok()).unwrap_or(usize::MAX);
+                    let entries: u32 = it.next().and_then(|s| s.parse().ok()).unwrap_or(0);
                     let payload = it.next().unwrap_or("");
                     let panics: Vec<PanicInfo> = payload
                         .split('\u{2}')
@@ -1115,7 +1125,7 @@ fn run_batch(tier: Tier, indices: &[usize], trace: bool, timeout: Duration) -> V
                             PanicInfo { entry: p.first().unwrap_or(&"").to_string(), location: p.get(1).unwrap_or(&"").to_string(), message: p.get(2).unwrap_or(&"").to_string() }
                         })
                         .collect();
-                    results.push((idx, Outcome::Done(panics), None));
+                    results.push((idx, Outcome::Done(panics, entries), None));
                     current = None;
                 }
             }
@@ -1171,7 +1181,7 @@ pub fn replay(case: &Value) -> Vec<String> {
 
 fn signatures_of(case: &Case, outcome: &Outcome, entry: Option<&str>) -> Vec<String> {
     match outcome {
-        Outcome::Done(panics) => panics.iter().map(|p| format!("panic:{}", strip_repo(&p.location))).collect(),
+        Outcome::Done(panics, _) => panics.iter().map(|p| format!("panic:{}", strip_repo(&p.location))).collect(),
         Outcome::Died(how) => vec![format!("process-died({how}):{}:{}", entry.unwrap_or("?").split('[').next().unwrap_or(""), field_class(case))],
         Outcome::Timeout => vec![format!("timeout:{}:{}", entry.unwrap_or("?").split('[').next().unwrap_or(""), field_class(case))],
     }
@@ -1189,6 +1199,7 @@ pub fn run(tier: Tier) -> i32 {
     let next = AtomicUsize::new(0);
     let done = AtomicU64::new(0);
     let entries_run = AtomicU64::new(0);
+    let deep = AtomicU64::new(0);
     let machinery: Mutex<Vec<String>> = Mutex::new(Vec::new());
     let timeout = Duration::from_secs(20);
     let started = Instant::now();
@@ -1213,7 +1224,10 @@ pub fn run(tier: Tier) -> i32 {
                         ctx.eval(1);
                         let case = &cases[*idx];
                         let (outcome2, entry2) = match outcome {
-                            Outcome::Done(p) => {
+                            Outcome::Done(p, entries) => {
+                                if *entries >= 40 {
+                                    deep.fetch_add(1, Ordering::Relaxed);
+                                }
                                 for pi in p {
                                     if pi.location.starts_with("/verif/") || pi.location.contains("harness/src") {
                                         machinery.lock().unwrap().push(format!("harness panic at {}: {} ({})", pi.location, pi.message, describe(case)));
@@ -1227,10 +1241,10 @@ pub fn run(tier: Tier) -> i32 {
                                 let again = run_batch(tier, &[*idx], true, timeout);
                                 match again.into_iter().next() {
                                     Some((_, o @ (Outcome::Died(_) | Outcome::Timeout), e)) => (Some(o), e),
-                                    Some((_, Outcome::Done(p), _)) => {
+                                    Some((_, Outcome::Done(p, n), _)) => {
                                         // did not reproduce in isolation: not attributed to the subject
                                         machinery.lock().unwrap().push(format!("worker death did not reproduce in isolation for {}", describe(case)));
-                                        (Some(Outcome::Done(p)), None)
+                                        (Some(Outcome::Done(p, n)), None)
                                     }
                                     None => (None, None),
                                 }
@@ -1239,7 +1253,7 @@ pub fn run(tier: Tier) -> i32 {
                         let final_outcome = outcome2.as_ref().unwrap_or(outcome);
                         for sig in signatures_of(case, final_outcome, entry2.as_deref()) {
                             let what = match final_outcome {
-                                Outcome::Done(p) => {
+                                Outcome::Done(p, _) => {
                                     let first = p.iter().find(|x| sig.contains(&strip_repo(&x.location))).or(p.first());
                                     format!("{} panicked at {}: {} — input: {}", first.map(|x| x.entry.clone()).unwrap_or_default(), first.map(|x| x.location.clone()).unwrap_or_default(), first.map(|x| x.message.clone()).unwrap_or_default(), describe(case))
                                 }
@@ -1275,8 +1289,8 @@ pub fn run(tier: Tier) -> i32 {
     let ffi_cases = cases.iter().filter(|c| matches!(c, Case::Ffi(..))).count();
     let mut cov = Coverage::new();
     cov.set("evaluations", json!(done.load(Ordering::Relaxed)))
-        .set("distinct_nontrivial", json!(done.load(Ordering::Relaxed).saturating_sub(1)))
-        .set("rule", json!("evaluations = cases executed to completion in worker subprocesses (each drives ~60 entry points of the pipeline, or one extern C call pattern); every case is distinct by construction (a different field value or pointer pattern); non-trivial = all but the 0-deviation baseline"))
+        .set("distinct_nontrivial", json!(deep.load(Ordering::Relaxed)))
+        .set("rule", json!("evaluations = cases executed to completion in worker subprocesses; every case is distinct by construction (a different field value or pointer pattern); distinct_nontrivial = cases in which the hostile value still let the pipeline run deep: at least 40 public entry points were executed (the worker counts them per case), i.e. the value was not rejected at deserialisation or by an early exit"))
         .set("cases_enumerated", json!(n))
         .set("fields_with_hostile_alphabet", json!(devs.len()))
         .set("single_deviation_cases", json!(singles))
